@@ -7,7 +7,8 @@
 //     intersect a live one (this is also "reused only after it was freed");
 //   * a per-block canary pattern written at allocation and re-checked after
 //     EVERY step (catches allocator metadata written into live blocks, and
-//     overlap the interval map cannot see);
+//     overlap the interval map cannot see); dense up to 64 KiB, sampled for
+//     larger blocks (see "canaries" below);
 //   * usability: a block must lie inside memory the allocator owns -- one 2 MiB
 //     unit of a mapping the library itself requested (mmap is interposed
 //     below), or one live malloc chunk (asked from ASan) -- for its whole
@@ -47,6 +48,15 @@
 //   PTS objects : an offset freed in this history was handed out again;
 //   LargeArray  : two arrays were live at once, or an array was re-allocated
 //                 after deallocate.
+//
+// Findings on the unchanged tree (kept as checks, reported, not repaired here):
+//   BumpHeap:allocate2:null-block / BumpHeap:allocate2:outside-allocator-memory
+//     BumpHeap::allocate(size, allocated) with no current block (never used
+//     heap, or after clear()) takes the "remaining space" branch and returns
+//     (char*)nullptr + offset with allocated == size.
+//   BumpHeap:allocate2:exceeds-page
+//     the same overload, current page exactly full and size > 2 MiB - 8:
+//     refills and hands out 2 MiB starting 8 bytes into the new 2 MiB page.
 #include "seqx.h"
 
 #include "galois/Galois.h"
@@ -228,6 +238,19 @@ static pid_t g_explorer_pid = 0;
 static bool in_explorer(const std::vector<int>& h) {
   return h.empty() && g_explorer_pid && getpid() == g_explorer_pid;
 }
+
+// A corrupted free list can turn into an endless loop inside the allocator (or
+// inside the harness code that walks it for the key), and seqx waits for its
+// workers without a timeout.  SIGALRM's default action ends the worker, which
+// seqx reports as `<case>:crash` for the history that was running.
+struct Watchdog { // seconds per history; C09_WATCHDOG overrides (self-tests)
+  Watchdog() {
+    static const unsigned secs =
+        getenv("C09_WATCHDOG") ? (unsigned)atoi(getenv("C09_WATCHDOG")) : 300;
+    alarm(secs);
+  }
+  ~Watchdog() { alarm(0); }
+};
 
 static void rt() {
   static bool ready = false;
@@ -614,6 +637,7 @@ static sx::BfsCase sized_case(const std::string& name, const std::string& comp,
   c.run            = [=](const std::vector<int>& h) -> std::string {
     if (in_explorer(h))
       return "ROOT";
+    Watchdog wd;
     rt();
     std::unique_ptr<SizedApi> api = mk();
     Shadow sh;
@@ -785,6 +809,7 @@ static sx::BfsCase bump_case(const std::string& name, const std::string& comp,
   c.run            = [=](const std::vector<int>& h) -> std::string {
     if (in_explorer(h))
       return "ROOT";
+    Watchdog wd;
     rt();
     Shadow sh;
     // declared after sh: the heap is destroyed (pages go back to the pool)
@@ -937,6 +962,7 @@ static sx::BfsCase pagepool_case(int T, int qd, int td) {
   c.run            = [=](const std::vector<int>& h) -> std::string {
     if (in_explorer(h))
       return "ROOT";
+    Watchdog wd;
     rt();
     const std::string comp = "pagePool";
     gr::PageHeap* ph       = gr::PageHeap::getInstance();
@@ -1062,6 +1088,7 @@ static sx::BfsCase perbackend_case(int qd, int td) {
   c.thorough_depth = td;
   c.run            = [=](const std::vector<int>& h) -> std::string {
     const std::string comp = "PerBackend";
+    Watchdog wd;
     gs::PerBackend pb;
     std::vector<std::pair<unsigned, unsigned>> live; // (offset, requested)
     bool freelist = false, split = false, bumpback = false, oom = false;
@@ -1211,6 +1238,7 @@ static sx::BfsCase pts_objects_case(int qd, int td) {
   c.run            = [=](const std::vector<int>& h) -> std::string {
     if (in_explorer(h))
       return "ROOT";
+    Watchdog wd;
     rt();
     const std::string comp = "PerThreadStorage";
     Shadow sh;
@@ -1352,6 +1380,7 @@ static sx::BfsCase largearray_case(size_t nA, size_t nB, int qd, int td) {
   c.run            = [=](const std::vector<int>& h) -> std::string {
     if (in_explorer(h))
       return "ROOT";
+    Watchdog wd;
     rt();
     const std::string comp = "LargeArray";
     const size_t N[2]      = {nA, nB};
